@@ -40,6 +40,7 @@ Notation any_died := (@any_died R np).
 Notation quiescent := (@quiescent R np).
 Notation log_backlog := (@log_backlog R np).
 Notation poll_bound := (@poll_bound R np).
+Notation no_partial := (@no_partial R np).
 Notation Inv := (Inv np wres r0).
 Notation good_pid := (good_pid np).
 
@@ -109,46 +110,51 @@ Qed.
 Lemma popped_quiescent w pid rest : quiescent w -> quiescent (popped w pid rest).
 Proof. intros H p Hp. rewrite popped_exitc. now apply H. Qed.
 
+Lemma popped_no_partial w pid rest : no_partial w -> no_partial (popped w pid rest).
+Proof. intros H p Hp. rewrite popped_pc. now apply H. Qed.
+
 Lemma master_progress w m :
-  quiescent w -> Inv w m ->
+  quiescent w -> no_partial w -> Inv w m ->
   (exists o, mstep w m = Fin o) \/
-  (exists w' m', mstep w m = Run w' m' /\ quiescent w' /\ mu w' m' < mu w m).
+  (exists w' m', mstep w m = Run w' m' /\ quiescent w' /\ no_partial w' /\ mu w' m' < mu w m).
 Proof.
-  intros Hq HI. rewrite mstep_eq. unfold mu.
+  intros Hq Hnp HI. rewrite mstep_eq. unfold mu.
   pose proof (inv_drain _ _ _ _ _ HI) as Hdr. unfold draining in Hdr.
   assert (Hall : all_ended w = true) by (apply all_ended_true; exact Hq).
+  assert (Hput : putting np w = false) by (apply putting_false; exact Hnp).
   destruct (ph m) as [|ae|ae|pid|pid e|] eqn:Hph.
   - (* PollA *)
-    right. destruct (it m <? np); do 2 eexists; (split; [reflexivity|split; [exact Hq|]]);
+    right. destruct (it m <? np); do 2 eexists;
+      (split; [reflexivity|split; [exact Hq|split; [exact Hnp|]]]);
       cbn [rq ph]; [rewrite Hall|]; cbn [rank]; lia.
   - (* PollB *)
-    right. destruct (rq w) as [|[pid r] rest] eqn:Hrq; do 2 eexists;
-      (split; [reflexivity|split]); try exact Hq.
+    right. rewrite Hput. destruct (rq w) as [|[pid r] rest] eqn:Hrq; do 2 eexists;
+      (split; [reflexivity|split; [exact Hq|split; [exact Hnp|]]]).
     + cbn [ph]. rewrite ?Hrq. destruct ae; cbn [rank]; lia.
     + cbn [rq ph length rank]. unfold M_Parallel.log_backlog. cbn [wks].
       destruct ae; cbn [rank]; lia.
   - (* PollC *)
     destruct (any_died w); [left; eexists; reflexivity|].
     destruct ae; [left; eexists; reflexivity|].
-    right. do 2 eexists. split; [reflexivity|split; [exact Hq|]]. cbn [ph rank]. lia.
+    right. do 2 eexists. split; [reflexivity|split; [exact Hq|split; [exact Hnp|]]]. cbn [ph rank]. lia.
   - (* DrainA *)
     destruct (Hdr pid eq_refl) as [Hg _].
     destruct ((1 <=? pid) && (pid <=? np)); [|left; eexists; reflexivity].
-    right. do 2 eexists. split; [reflexivity|split; [exact Hq|]]. cbn [ph].
+    right. do 2 eexists. split; [reflexivity|split; [exact Hq|split; [exact Hnp|]]]. cbn [ph].
     destruct (exitc (wks w pid)) eqn:He; [cbn [ended rank]; lia|].
     exfalso. apply (Hq pid); [exact Hg|exact He].
   - (* DrainB *)
     destruct (Hdr pid eq_refl) as [Hg _].
     destruct (lq (wks w pid)) as [|[id|] rest] eqn:Hlq.
     + destruct e; [left; eexists; reflexivity|].
-      right. do 2 eexists. split; [reflexivity|split; [exact Hq|]]. cbn [ph rank]. lia.
+      right. do 2 eexists. split; [reflexivity|split; [exact Hq|split; [exact Hnp|]]]. cbn [ph rank]. lia.
     + right. do 2 eexists. split; [reflexivity|]. fold (popped w pid rest).
-      split; [now apply popped_quiescent|].
+      split; [now apply popped_quiescent|]. split; [now apply popped_no_partial|].
       pose proof (popped_backlog w pid (Some id) rest Hg Hlq) as Hb.
       cbn [ph rank]. replace (rq (popped w pid rest)) with (rq w) by reflexivity.
       destruct e; cbn [rank]; lia.
     + right. do 2 eexists. split; [reflexivity|]. fold (popped w pid rest).
-      split; [now apply popped_quiescent|].
+      split; [now apply popped_quiescent|]. split; [now apply popped_no_partial|].
       pose proof (popped_backlog w pid None rest Hg Hlq) as Hb.
       cbn [ph rank]. replace (rq (popped w pid rest)) with (rq w) by reflexivity.
       destruct e; cbn [rank]; lia.
@@ -163,14 +169,14 @@ Lemma n_master_cons_worker p a s : n_master (Worker p a :: s) = n_master s.
 Proof. reflexivity. Qed.
 
 Lemma terminates sched : forall w m n,
-  quiescent w -> Inv w m -> mu w m < n -> n <= n_master sched ->
+  quiescent w -> no_partial w -> Inv w m -> mu w m < n -> n <= n_master sched ->
   exists o, exec sched (Run w m) = Fin o.
 Proof.
-  induction sched as [|a s IH]; intros w m n Hq HI Hmu Hn.
+  induction sched as [|a s IH]; intros w m n Hq Hnp HI Hmu Hn.
   - cbn in Hn. lia.
   - rewrite exec_cons. destruct a as [|pid wa].
     + rewrite n_master_cons_master in Hn. cbn [M_Parallel.step].
-      destruct (master_progress w m Hq HI) as [[o Ho]|[w' [m' [Hs [Hq' Hlt]]]]].
+      destruct (master_progress w m Hq Hnp HI) as [[o Ho]|[w' [m' [Hs [Hq' [Hnp' Hlt]]]]]].
       * rewrite Ho. exists o. apply exec_Fin.
       * rewrite Hs. apply (IH w' m' (n - 1)); try lia; try assumption.
         eapply Inv_master; eassumption.
@@ -182,12 +188,12 @@ Qed.
    which all children have ended, poll_bound further master steps finish the
    call - with the complete list or with an error *)
 Lemma gather_loud s1 s2 w m :
-  exec s1 (init r0) = Run w m -> quiescent w -> poll_bound w <= n_master s2 ->
+  exec s1 (init r0) = Run w m -> quiescent w -> no_partial w -> poll_bound w <= n_master s2 ->
   exists o, exec (s1 ++ s2) (init r0) = Fin o /\
             (forall r, o = Done r -> complete np wres r0 r).
 Proof.
-  intros H1 Hq Hn. rewrite exec_app, H1.
-  destruct (terminates s2 w m (poll_bound w) Hq (gather_inv np wres r0 s1 w m H1)
+  intros H1 Hq Hnp Hn. rewrite exec_app, H1.
+  destruct (terminates s2 w m (poll_bound w) Hq Hnp (gather_inv np wres r0 s1 w m H1)
               (mu_bound w m) Hn) as [o Ho].
   exists o. split; [exact Ho|]. intros r ->.
   apply (gather_safe np wres r0 (s1 ++ s2)). now rewrite exec_app, H1.
@@ -201,7 +207,7 @@ Notation draining := (@draining R).
 Record NF (w : @world R) (m : @mst R) : Prop := mkNF {
   nf_exit : forall p, good_pid p ->
       exitc (wks w p) = None \/ (exitc (wks w p) = Some 0%Z /\ pc (wks w p) = WDone);
-  nf_kept : forall p, good_pid p -> pc (wks w p) <> WRun ->
+  nf_kept : forall p, good_pid p -> delivered (pc (wks w p)) ->
       In p (map fst (rq w)) \/ In p (map fst (pmap m));
   nf_mark : forall p, good_pid p -> pc (wks w p) = WDone ->
       (In p (map fst (pmap m)) /\ draining m <> Some p) \/ In None (lq (wks w p));
@@ -217,7 +223,7 @@ Lemma NF_init : NF (mkworld [] (fun _ => fresh)) (mkmst 0 PollA [(0, r0)]).
 Proof.
   constructor; cbn.
   - intros p _. now left.
-  - intros p _ H. now contradiction H.
+  - intros p _ [H|H]; discriminate.
   - intros p _ H. discriminate.
   - exact I.
 Qed.
@@ -228,7 +234,7 @@ Lemma NF_worker_upd w m pid k' extra :
   NF w m ->
   exitc (wks w pid) = None ->
   (exitc k' = None \/ (exitc k' = Some 0%Z /\ pc k' = WDone)) ->
-  (pc k' <> WRun -> pc (wks w pid) <> WRun \/ In pid (map fst extra)) ->
+  (delivered (pc k') -> delivered (pc (wks w pid)) \/ In pid (map fst extra)) ->
   (pc k' = WDone -> (pc (wks w pid) = WDone /\ lq k' = lq (wks w pid)) \/ In None (lq k')) ->
   NF (mkworld (rq w ++ extra) (upd (wks w) pid k')) m.
 Proof.
@@ -263,22 +269,30 @@ Proof.
   assert (Hnil : forall k', NF (mkworld (rq w ++ []) (upd (wks w) pid k')) m ->
                             NF (mkworld (rq w) (upd (wks w) pid k')) m)
     by (intro k'; now rewrite app_nil_r).
-  destruct a as [id| | | |c]; [| | | |discriminate];
+  destruct a as [id| | | | | |c]; try discriminate;
     destruct (pc (wks w pid)) eqn:Hpc; try exact HN.
   - (* APutLog *)
     apply Hnil. apply NF_worker_upd; cbn [pc exitc lq map fst];
-      [exact HN|exact He|now left|intro H; exfalso; now apply H|discriminate].
-  - (* APutResult *)
+      [exact HN|exact He|now left|intros [H|H]; discriminate|discriminate].
+  - (* APutBegin *)
+    destruct (wres pid) as [r|e] eqn:Hw; [|exact HN].
+    apply Hnil. apply NF_worker_upd; cbn [pc exitc lq map fst];
+      [exact HN|exact He|now left|intros [H|H]; discriminate|discriminate].
+  - (* APutResult at WRun *)
+    destruct (wres pid) as [r|e] eqn:Hw; [|exact HN].
+    apply NF_worker_upd; cbn [pc exitc lq map fst];
+      [exact HN|exact He|now left|intros _; right; now left|discriminate].
+  - (* APutResult at WPutting *)
     destruct (wres pid) as [r|e] eqn:Hw; [|exact HN].
     apply NF_worker_upd; cbn [pc exitc lq map fst];
       [exact HN|exact He|now left|intros _; right; now left|discriminate].
   - (* APutEnd *)
     apply Hnil. apply NF_worker_upd; cbn [pc exitc lq map fst];
-      [exact HN|exact He|now left|intros _; left; rewrite Hpc; discriminate|].
+      [exact HN|exact He|now left|intros _; left; rewrite Hpc; now left|].
     intros _. right. apply in_or_app. right. now left.
   - (* AExit0 *)
     apply Hnil. apply NF_worker_upd; cbn [pc exitc lq map fst];
-      [exact HN|exact He|right; split; reflexivity|intros _; left; rewrite Hpc; discriminate|].
+      [exact HN|exact He|right; split; reflexivity|intros _; left; rewrite Hpc; now right|].
     intros _. left. split; [exact Hpc|reflexivity].
 Qed.
 
@@ -294,7 +308,7 @@ Proof.
   destruct (Nat.eq_dec p 0) as [->|Hne]; [exact (inv_zero _ _ _ _ _ HI)|].
   assert (Hg : good_pid p) by (unfold P_Parallel.good_pid; lia).
   destruct (N1 p Hg) as [Hn|[_ Hpc]]; [exfalso; now apply (Hall p Hg)|].
-  destruct (N2 p Hg) as [H|H]; [rewrite Hpc; discriminate| |exact H].
+  destruct (N2 p Hg) as [H|H]; [rewrite Hpc; now right| |exact H].
   rewrite Hrq in H. contradiction.
 Qed.
 
@@ -328,7 +342,7 @@ Proof.
     + constructor; cbn [rq wks ph it pmap]; [exact N1|exact N2|mark_none N3|exact I].
   - (* PollB *)
     destruct (rq w) as [|[pid r] rest] eqn:Hrq.
-    + destruct ae.
+    + destruct (putting np w); [exact HN|]. destruct ae.
       * exfalso.
         pose proof (keys_full w m HI HN Hrq N4) as Hk. lia.
       * constructor; cbn [rq wks ph it pmap]; [exact N1|rewrite Hrq; exact N2|mark_none N3|exact I].
